@@ -1,6 +1,21 @@
 """C22 Query results do not depend on optimization or strategy (dbms/query)
 
-Mutation testing (scratch worktrees of /repo, VERIF_REPO=<dir>, quick tier): see MUTANTS below.
+Mutation testing (scratch worktree of /repo at the fixed tree, VERIF_REPO=<dir>, quick tier, seed 1;
+"green" = `go test -short ./dbms/query/` still passes with the mutant):
+  proj-lj-split          project.go Transform, LeftJoin case: split when the project merely overlaps the
+                         join columns (`!set.Disjoint(p.columns, q.by)`)                  green  -> VIOLATION
+  proj-extend-dep        project.go transformExtend: drops an extend column another extend expression uses
+                                                                                        green  -> VIOLATION
+  orderedn-skip          best.go orderedn: skips index columns fixed to SEVERAL values (index (a,b) taken as
+                         ordered by b under `a in (1,2)`)                                 green  -> VIOLATION
+  unfix-F10              projectnone.go hasRow with a nil thread (DESIGN F10)             green  -> VIOLATION
+  unfix-project-whole    project.go reduces a summarize to a whole-row min/max            green  -> VIOLATION
+  unfix-where-summarize  where.go moves conditions on summarize outputs below it          green  -> VIOLATION
+  lj-unmatched           join.go LeftJoin.Get drops unmatched rows of 1:n joins           tests red, VIOLATION
+  (lj2join, gt-range, covered-multi, union-disjoint-loose, minus-copyfixed-both, ...: the package's own
+   tests are already red for them; gt-range is equivalent - where re-filters the rows of its index range)
+On the tree without the fix commits the check reports F10 and the other defects listed as `fixed:` in
+known-findings.txt (seed 1: F10 first).
 """
 import relcommon
 
@@ -10,12 +25,6 @@ META = {
  "note": "trusts TLC + CommunityModules Json, the harness generator/renderer (AST -> text), the rank table for strings; values limited to \"\", booleans, small integers/rationals and 6 strings; tables <= 6 rows; queries <= 14 nodes; expressions avoid the documented \"\"-versus-number ordering exception",
  "technique": "TLA+ denotational oracle evaluated by TLC (trace validation) + exhaustive TLC check of the oracle's algebraic laws",
 }
-
-# MUTANTS (each compiled, dbms/query tests green unless noted, quick tier seed 1): filled in by the report
-MUTANTS = """
-see report / checks/C22.py header in the repository history
-"""
-
 
 def classify(ev, opened=None):
     """key of a rejected Query event for known-findings matching"""
